@@ -99,11 +99,17 @@ class StartStageHandler(
                 # The CancelStage fan-out settles this stage; starting it here would
                 # complete a task-less or disabled stage SUCCEEDED / SKIPPED instead
                 # of CANCELED when this message overtakes the stage's CancelStage.
-                if stage.status == WorkflowStatus.NOT_STARTED and stage.execution.is_canceled:
+                # Likewise a workflow that has already reached a final status starts
+                # no further stage: recovery no longer looks at it, so a stage claimed
+                # here would stay RUNNING for good if the worker died before planning.
+                if stage.status == WorkflowStatus.NOT_STARTED and (
+                    stage.execution.is_canceled or stage.execution.status.is_complete
+                ):
                     logger.debug(
-                        "Ignoring StartStage for %s (%s): workflow is canceled",
+                        "Ignoring StartStage for %s (%s): workflow is %s",
                         stage.name,
                         stage.id,
+                        "canceled" if stage.execution.is_canceled else stage.execution.status,
                     )
                     return
 
